@@ -18,7 +18,7 @@ from simkit.core import RunResult, ddmin_list, short_hash
 
 LEVEL = {"C09": "exploration"}
 TIERS = {"C09": (2500, 150, 60000, 1200)}
-PROBES = {"C09": ["ensemble", "pipeline", "multiplexer", "stacking", "online_ensemble", "nested_member",
+PROBES = {"C09": ["ensemble", "pipeline", "multiplexer", "stacking", "online_ensemble", "hedge_weights_learnt", "hedge_batch_of_several", "nested_member",
                   "skip_inverse_transform_tag", "update_propagation_checked",
                   "final_forecaster_representation_checked", "holdout_checked",
                   "members_are_clones_checked", "parallel_member_fit", "update_params_false",
@@ -68,7 +68,7 @@ def generate(prop, rng, tier):
                       {"kind": "trend", "degree": 1, "with_intercept": True},
                       {"kind": "naive", "strategy": "drift", "sp": 1, "window_length": None}]
             spec["members"] = rng.sample(simple, rng.randint(2, 3))
-            spec["algo"] = "nnls"
+            spec["algo"] = rng.choice(["nnls", "nnls", "hedge"])
     elif kind == "mux":
         ms = [member() for _ in range(rng.randint(2, 3))]
         spec = {"kind": "mux", "members": ms, "selected": rng.randrange(len(ms))}
@@ -152,6 +152,10 @@ def build_spied(spec):
         if spec.get("algo") == "nnls":
             from sktime.forecasting.online_learning import NNLSEnsemble
             algo = NNLSEnsemble(n_estimators=len(spec["members"]))
+        elif spec.get("algo") == "hedge":
+            from sklearn.metrics import mean_squared_error
+            from sktime.forecasting.online_learning import NormalHedgeEnsemble
+            algo = NormalHedgeEnsemble(n_estimators=len(spec["members"]), loss_func=mean_squared_error)
         return OnlineEnsembleForecaster([("m%d" % i, SF(C.build(m), tag="m%d" % i))
                                          for i, m in enumerate(spec["members"])],
                                         ensemble_algorithm=algo, n_jobs=spec.get("n_jobs"))
@@ -310,6 +314,21 @@ def execute(prop, scen):
                 with peers.paused():
                     comp = C.pickle_roundtrip(comp)
                 res.fault("pickle_roundtrip")
+            weights_done = False
+            if kind == "online" and spec.get("algo") == "hedge":
+                # the hedging rule is only defined while some member has a positive regret
+                with peers.paused(), sched.scenario_schedule(sched.Scheduler("fifo", 0)):
+                    try:
+                        defined = ref.learn_weights(batch)
+                    except Exception:
+                        defined = False
+                weights_done = True
+                if not defined:
+                    digest.update(b"hedge_undefined")
+                    break
+                res.probe("hedge_weights_learnt")
+                if len(batch) >= 2:
+                    res.probe("hedge_batch_of_several")
             mark = len(peers.CTX.log)
             ok, _ = run("update", lambda: comp.update(batch, update_params=h["up"]))
             if not ok:
@@ -320,7 +339,8 @@ def execute(prop, scen):
                 s2 = sched.Scheduler("fifo", 0)
                 with sched.scenario_schedule(s2):
                     try:
-                        ref.update(batch, h["up"])
+                        ref.update(batch, h["up"], weights_done=weights_done) if weights_done \
+                            else ref.update(batch, h["up"])
                     except Exception as e:  # noqa
                         digest.update(b"ref_update_raised")
                         break
@@ -437,6 +457,39 @@ class _RefNNLS:
         self.weights, _ = nnls(self.P, self.y)
 
 
+class _RefNormalHedge:
+    """NormalHedge (Chaudhuri, Freund, Hsu 2009) written out, with the squared error of each
+    member's forecast as its loss: after EVERY observation the cumulative regrets grow by
+    (weighted loss - own loss) and the weights become proportional to (r/c) exp(r^2 / 2c) over the
+    positive parts r of the regrets, c solving mean(exp(r^2 / 2c)) = e. Uniform weights before
+    the first observation. `undefined`: no member has a positive regret (nothing is demanded)."""
+
+    def __init__(self, n):
+        self.weights = np.ones(n) / n
+        self.R = np.zeros(n)
+        self.undefined = False
+
+    def update(self, y_pred, y_true):
+        from scipy.optimize import brentq
+        P = np.asarray(y_pred, float)          # (members, time points)
+        for t, obs in enumerate(np.asarray(y_true, float)):
+            loss = (P[:, t] - obs) ** 2
+            self.R = self.R + (float(np.dot(self.weights, loss)) - loss)
+            r = np.maximum(self.R, 0.0)
+            if not np.isfinite(r).all() or r.max() <= 0:
+                self.undefined = True
+                return
+            r = r / r.max()                     # (the weights are invariant to the scale of r)
+
+            def pot(c):
+                with np.errstate(over="ignore"):
+                    return float(np.mean(np.exp(r ** 2 / (2 * c))) - np.e)
+            hi = 0.5
+            c = hi if pot(hi) >= 0 else brentq(pot, 1e-3, hi, xtol=1e-15, rtol=1e-14)
+            w = (r / c) * np.exp(r ** 2 / (2 * c))
+            self.weights = w / w.sum()
+
+
 class _Chain:
     """Reference for a pipeline used as a transformer step: its leaf transformers composed by
     hand (forward at fit/transform/update, every inverse in reverse order)."""
@@ -488,6 +541,8 @@ class Reference:
             self.algo = None
             if self.spec.get("algo") == "nnls":
                 self.algo = _RefNNLS(len(self.members))
+            elif self.spec.get("algo") == "hedge":
+                self.algo = _RefNormalHedge(len(self.members))
         elif k == "ttf":
             self.trs = [_Chain(t["transformers"]) if t["kind"] == "ttf_t" else C.build_transformer(t)
                         for t in self.spec["transformers"]]
@@ -538,14 +593,21 @@ class Reference:
                 z = t.inverse_transform(z)
         return z
 
-    def update(self, batch, up):
+    def learn_weights(self, batch):
+        """The weighting step of an update, done first: weights from the members' forecasts of
+        the batch, made before they see it. False when the rule leaves them undefined."""
+        if getattr(self, "algo", None) is not None and len(batch) >= 1:
+            steps_ = list(range(1, len(batch) + 1))
+            P = np.column_stack([np.asarray(m.predict(steps_).values, float) for m in self.members])
+            self.algo.update(P.T, np.asarray(batch.values, float))
+            return not getattr(self.algo, "undefined", False)
+        return True
+
+    def update(self, batch, up, weights_done=False):
         k = self.kind
         if k in ("ensemble", "stack"):
-            if getattr(self, "algo", None) is not None and len(batch) >= 1:
-                # weights from the members' forecasts of the batch, made before they see it
-                steps_ = list(range(1, len(batch) + 1))
-                P = np.column_stack([np.asarray(m.predict(steps_).values, float) for m in self.members])
-                self.algo.update(P.T, np.asarray(batch.values, float))
+            if not weights_done:
+                self.learn_weights(batch)
             for m in self.members:
                 m.update(batch, update_params=up)
         elif k == "mux":
@@ -665,7 +727,13 @@ def check_predict(v, res, spec, log, p, q, ref, updated):
     if not isinstance(p, pd.Series):
         v("not_a_series", "predict returned %s" % type(p).__name__)
         return
-    if not C.same_series(p, q):
+    if spec.get("algo") == "hedge":
+        # (both sides find c numerically: agreement to root-finding accuracy)
+        same = isinstance(q, pd.Series) and C.same_index(p.index, q.index) and \
+            bool(np.allclose(p.values, q.values, rtol=1e-6, atol=1e-9))
+    else:
+        same = C.same_series(p, q)
+    if not same:
         v("differs_from_composition", "%s forecast %s, the composition of independently fitted "
           "parts gives %s" % (k, C.fmt(p), C.fmt(q)), after_update=updated > 0)
         return
